@@ -83,6 +83,9 @@ type Spec[C any] struct {
 	// TrackCurrent writes the case to current.json before it runs, so that a
 	// process crash can be attributed to it.
 	TrackCurrent bool
+	// TrackIf restricts TrackCurrent to the cases for which it returns true
+	// (cheap pure cases need no crash recovery; nil = all cases).
+	TrackIf func(C) bool
 	// MaxSamples is the number of cases kept verbatim (default 4).
 	MaxSamples int
 }
@@ -254,7 +257,11 @@ func Main[C any](t *testing.T, sp Spec[C]) {
 			return
 		}
 		if sp.TrackCurrent && out != "" {
-			_ = os.WriteFile(filepath.Join(out, "current.json"), cb, 0o644)
+			if sp.TrackIf == nil || sp.TrackIf(c) {
+				_ = os.WriteFile(filepath.Join(out, "current.json"), cb, 0o644)
+			} else {
+				_ = os.Remove(filepath.Join(out, "current.json"))
+			}
 		}
 		v := runCase(sp.Run, c)
 		st.mu.Lock()
